@@ -48,7 +48,7 @@ def random_structure(rng, n, stems, maxlen=4):
 
 
 def bpseq_text(pairing, seq=None):
-    seq = seq or "".join("ACGU"[i % 4] for i in range(len(pairing)))
+    seq = seq or "".join("ACGUacguNn"[(i * 7) % 10] for i in range(len(pairing)))
     return "\n".join(f"{i + 1} {seq[i]} {p}" for i, p in enumerate(pairing))
 
 
